@@ -416,7 +416,7 @@ def trace_playback(pkgdir, harness, pretty, r, fail, cap):
   cmd = [c for c in r["cmd"] if c not in ("--verbosity", "8")]
   cmd = cmd[:-1] + ["--property", fail["prop"], "--trace", "--json-ui", "--verbosity", "4", r["gfile"]]
   try:
-    p = subprocess.run(cmd, stdout=subprocess.PIPE, stderr=subprocess.DEVNULL, text=True, timeout=cap * 2)
+    p = subprocess.run(cmd, stdout=subprocess.PIPE, stderr=subprocess.DEVNULL, text=True, timeout=max(600, min(cap, 1200)))
   except subprocess.TimeoutExpired:
     return None
   try:
